@@ -9,7 +9,8 @@ Diff(m, b, at, seed) == [op |-> "diff", mode |-> m, b |-> b, at |-> at, seed |->
 Ret(a) == [op |-> "ret", a |-> a]
 Modes == {"vjp", "jvp"}
 
-Single(bodies, input, warnerr) == [bodies |-> bodies, threads |-> <<[main |-> 1, input |-> input]>>, warnerr |-> warnerr]
+Single(bodies, input, warnerr) == [bodies |-> bodies, threads |-> <<[main |-> 1, input |-> input]>>, warnerr |-> warnerr,
+                                   utable |-> <<>>, uscale |-> 1]
 
 \* ---------------------------------------------------------------- nesting family (C07 / C08 / C14)
 \* Level k (k = 1..depth) is body k+1; its own variable is its register 1; the variable of the enclosing level j < k
@@ -189,11 +190,11 @@ ShiftBodies(bs, k) == [b \in DOMAIN bs |-> [j \in DOMAIN bs[b] |-> ShiftIns(bs[b
 \* p and q are single-thread programs; the result runs p as thread 1 and q as thread 2
 Par2(p, q) == [bodies |-> p.bodies \o ShiftBodies(q.bodies, Len(p.bodies)),
                threads |-> <<p.threads[1], [main |-> Len(p.bodies) + 1, input |-> q.threads[1].input]>>,
-               warnerr |-> FALSE]
+               warnerr |-> FALSE, utable |-> <<>>, uscale |-> 1]
 Par3(p, q, r) == LET pq == Par2(p, q) IN
                  [bodies |-> pq.bodies \o ShiftBodies(r.bodies, Len(pq.bodies)),
                   threads |-> pq.threads \o <<[main |-> Len(pq.bodies) + 1, input |-> r.threads[1].input]>>,
-                  warnerr |-> FALSE]
+                  warnerr |-> FALSE, utable |-> <<>>, uscale |-> 1]
 \* per-thread programs: flat gradient of y*y; nested  d/dy [ y * d/dz (z z y)(y) ];  second derivative of x^3
 FlatProg(m, x) == Single(<< <<Diff(m, 2, R(0, 1), K(1)), Ret(R(0, 2))>>, <<Mul(R(0, 1), R(0, 1)), Ret(R(0, 2))>> >>, x, FALSE)
 NestedProg(m, ck, x) ==
@@ -206,4 +207,55 @@ ThreadProgs == {FlatProg(m, 3) : m \in Modes} \cup {NestedProg(m, ck, 2) : m \in
 ThreadFamily2 == {Par2(p, q) : p \in {NestedProg(m, ck, 2) : m \in [1..2 -> Modes], ck \in {"var", "const"}}, q \in ThreadProgs}
 ThreadFamily2Small == {Par2(NestedProg(m, ck, 2), FlatProg(mm, 3)) : m \in {<<"vjp", "vjp">>, <<"jvp", "vjp">>}, ck \in {"var", "const"}, mm \in Modes}
 ThreadFamily3 == {Par3(NestedProg(<<"vjp", "vjp">>, ck, 2), FlatProg(m, 3), HoProgram(2, <<m, "vjp">>, 3, 2)) : ck \in {"var", "const"}, m \in Modes}
+
+\* ---------------------------------------------------------------- user-defined primitives (C17)
+\* user(a1..an) = uscale * a1 * ... * an with a rule table.  Depth 1:
+\*   main(x): r2 = diff(m, 2, x, 1); ret r2
+\*   2 (y):   r2 = user(args)   each argument is y (the variable) or a constant 2, 3, ...;  ret r2
+\* every arity 1..MaxN, every non-empty subset of differentiated positions, every table over {rule, zero, missing}
+ExtArgs(n, S) == [i \in 1..n |-> IF i \in S THEN R(0, 1) ELSE K(i + 1)]
+Ext1Program(m, n, S, tab, sc, x) ==
+  [Single(<< <<Diff(m, 2, R(0, 1), K(1)), Ret(R(0, 2))>>,
+             <<Prim("user", ExtArgs(n, S)), Ret(R(0, 2))>> >>, x, FALSE) EXCEPT !.utable = tab, !.uscale = sc]
+Ext1Family(MaxN, inputs) ==
+  UNION {{Ext1Program(m, n, S, tab, sc, x) : m \in Modes, S \in (SUBSET (1..n)) \ {{}}, tab \in [1..n -> {"rule", "zero", "missing"}],
+                                            sc \in {1, 2}, x \in inputs} : n \in 1..MaxN}
+\* Depth 2: arguments are assigned to trace levels: "z" own variable of the inner function, "y" the enclosing variable, "c" constant.
+\*   main(x): r2 = diff(m1, 2, x, 1); ret r2
+\*   2 (y):   r2 = diff(m2, 3, y, 1); r3 = r2 * y; ret r3
+\*   3 (z):   r2 = user(args); ret r2
+\* tables over {rule, missing}; a zero entry only for constant positions
+Ext2Args(lv) == [i \in DOMAIN lv |-> CASE lv[i] = "z" -> R(0, 1) [] lv[i] = "y" -> R(1, 1) [] OTHER -> K(i + 1)]
+Ext2Program(m, lv, tab, x) ==
+  [Single(<< <<Diff(m[1], 2, R(0, 1), K(1)), Ret(R(0, 2))>>,
+             <<Diff(m[2], 3, R(0, 1), K(1)), Mul(R(0, 2), R(0, 1)), Ret(R(0, 3))>>,
+             <<Prim("user", Ext2Args(lv)), Ret(R(0, 2))>> >>, x, FALSE) EXCEPT !.utable = tab, !.uscale = 1]
+Ext2Family(MaxN, inputs) ==
+  UNION {{Ext2Program(m, lv, tab, x) : m \in [1..2 -> Modes],
+                                      lv \in {l \in [1..n -> {"z", "y", "c"}] : \E i \in 1..n : l[i] # "c"},
+                                      tab \in [1..n -> {"rule", "missing", "zero"}], x \in inputs} : n \in 1..MaxN}
+  \ {p \in UNION {{Ext2Program(m, lv, tab, x) : m \in [1..2 -> Modes], lv \in [1..n -> {"z", "y", "c"}],
+                                               tab \in [1..n -> {"rule", "missing", "zero"}], x \in inputs} : n \in 1..MaxN} :
+        \E i \in DOMAIN p.utable : p.utable[i] = "zero" /\ p.bodies[3][1].a[i].up # -1}
+
+\* ---------------------------------------------------------------- checkpoint (C17): ckpt(body)(args) == body(args)
+\*   main(x): r2 = diff(m1, 2, x, 1); ret r2
+\*   2 (y):   r2 = [diff(m2, 3, y, 1) | nothing]; r3 = ckpt(4)(y, r2 or 3); r4 = r3 * y; ret
+\*   3 (z):   z * z * y
+\*   4 (a, b): a * a * b + [nested ckpt(5)(a)]      5 (c): c * c
+Ckpt(b, a) == [op |-> "ckpt", b |-> b, a |-> a]
+CkptProgram(m, inner, nestedck, order, x) ==
+  LET body4 == IF nestedck THEN <<Mul(R(0, 1), R(0, 1)), Mul(R(0, 3), R(0, 2)), Ckpt(5, <<R(0, 1)>>), Add(R(0, 4), R(0, 5)), Ret(R(0, 6))>>
+                           ELSE <<Mul(R(0, 1), R(0, 1)), Mul(R(0, 3), R(0, 2)), Ret(R(0, 4))>>
+      body2 == IF inner THEN <<Diff(m[2], 3, R(0, 1), K(1)), Ckpt(4, <<R(0, 1), R(0, 2)>>), Mul(R(0, 3), R(0, 1)), Ret(R(0, 4))>>
+                        ELSE <<Add(R(0, 1), K(1)), Ckpt(4, <<R(0, 1), R(0, 2)>>), Mul(R(0, 3), R(0, 1)), Ret(R(0, 4))>>
+      \* order 2/3: the whole thing differentiated again (reverse mode) by wrapping levels
+      core == << body2, CanaryInner, body4, <<Mul(R(0, 1), R(0, 1)), Ret(R(0, 2))>> >>
+  IN IF order = 1 THEN Single(<< <<Diff(m[1], 2, R(0, 1), K(1)), Ret(R(0, 2))>> >> \o core, x, FALSE)
+     ELSE \* main -> level A (body 2) returns diff of level B (= old body 2, now body 3): all body indices shift by one
+          Single(<< <<Diff(m[1], 2, R(0, 1), K(1)), Ret(R(0, 2))>>,
+                    <<Diff("vjp", 3, R(0, 1), K(1)), Ret(R(0, 2))>> >> \o ShiftBodies(core, 1), x, FALSE)
+\* checkpoint defines a VJP only (forward mode through it raises NotImplementedError, which the property does not exclude):
+\* every level that encloses the checkpoint call is reverse mode; the differentiation nested inside is of either mode
+CkptFamily(inputs) == {CkptProgram(<<"vjp", m2>>, i, n, o, x) : m2 \in Modes, i \in BOOLEAN, n \in BOOLEAN, o \in {1, 2}, x \in inputs}
 =============================================================================
